@@ -173,7 +173,14 @@ QOf(c) == <<c, 1>>
 SpeciesRec(it) ==
   [id |-> it.id, kind |-> "species", key |-> it.key,
    cls |-> IF ~SpValid(it.sp) THEN "invalid" ELSE IF SpUnspecified(it.sp, it.natural) THEN "unspecified:abundance" ELSE "wellformed",
-   data |-> IF SpValid(it.sp) /\ ~SpUnspecified(it.sp, it.natural) THEN SpData(it.sp, it.natural) ELSE <<>>]
+   tags |-> IF SpValid(it.sp) THEN SpFeatures(it.sp, it.natural) ELSE {},
+   data |-> IF SpValid(it.sp) /\ ~SpUnspecified(it.sp, it.natural) THEN SpData(it.sp, it.natural) ELSE <<>>,
+   \* Element(text, natural) observed directly
+   obl  |-> IF SpValid(it.sp) /\ ~SpUnspecified(it.sp, it.natural)
+            THEN LET D == SpData(it.sp, it.natural)
+                 IN  << Exact("Z", Obs("E.Z"), Q(D.Z, 1)), Exact("e", Obs("E.e"), Q(D.e, 1)),
+                        Exact("N", Obs("E.N"), D.N), Approx("mass", Obs("E.mass"), D.mass) >>
+            ELSE <<>>]
 
 \* obligations on one Substance object observed under the path prefix px, for the bag b
 BagObl(px, b, den, bind, natural) ==
@@ -205,20 +212,22 @@ BagObl(px, b, den, bind, natural) ==
 
 FormulaRec(it) ==
   LET ast == ParseIdeal(it.toks) IN
-  IF ast = PERR THEN [id |-> it.id, kind |-> "formula", cls |-> "ill", toks |-> it.toks]
+  IF ~Parses(it.toks) THEN [id |-> it.id, kind |-> "formula", cls |-> "ill", toks |-> it.toks]
   ELSE
   LET bag  == Expand(ast)
       ast2 == IF it.op = "add" THEN ParseIdeal(it.toks2) ELSE <<>>
-      all  == IF it.op = "add" /\ ast2 # PERR THEN BAdd(bag, Expand(ast2)) ELSE bag
+      ok2  == it.op # "add" \/ Parses(it.toks2)
+      all  == IF it.op = "add" /\ ok2 THEN BAdd(bag, Expand(ast2)) ELSE bag
       used == {v \in Vars : all[v] > 0}
       badsp == \E v \in used : ~SpValid(it.bind[v])
       unsp  == ~badsp /\ \E v \in used : SpUnspecified(it.bind[v], it.natural)
-      cls  == IF badsp \/ ast2 = PERR THEN "invalid"
+      cls  == IF badsp \/ ~ok2 THEN "invalid"
               ELSE IF Unspecified(ast) \/ (it.op = "add" /\ Unspecified(ast2)) THEN "unspecified"
               ELSE IF unsp THEN "unspecified:abundance" ELSE "wellformed"
       m    == Mach(ast)
   IN  [id |-> it.id, kind |-> "formula", cls |-> cls, toks |-> it.toks, natural |-> it.natural, op |-> it.op,
-       tags |-> Features(ast) \cup (IF it.op = "add" /\ ast2 # PERR THEN DevTags(ast2) ELSE {}),
+       tags |-> Features(ast) \cup (IF it.op = "add" /\ ok2 THEN DevTags(ast2) ELSE {})
+                \cup (IF badsp THEN {} ELSE UNION {SpFeatures(it.bind[v], it.natural) : v \in used}),
        bag |-> bag, pre |-> Pre(ast), merr |-> m.err, mbag |-> m.bag,
        lemmas |-> Lemmas(ast), refines |-> MachineOK(ast),
        obl |-> IF cls # "wellformed" THEN <<>>
